@@ -88,3 +88,29 @@ Definition unguarded_indexes : list (string * string * string * nat * nat) :=
   filter (fun e => let '(_, _, _, idx, minlen) := e in negb (Nat.ltb idx minlen)) gen_index_guards.
 Lemma signature_indexes_guarded : unguarded_indexes = [] /\ gen_index_guards <> [].
 Proof. split; [vm_compute; reflexivity | discriminate]. Qed.
+
+(* 7. handler code: every arithmetic / conversion sink on a message-derived value is one the model file knows and has a
+      disposition for; every paired index `B[i]` under `range A` is a pair whose equal length the modelled validator checks *)
+Definition quad_eqb (a b : string * string * string * string) : bool :=
+  let '(a1, a2, a3, a4) := a in let '(b1, b2, b3, b4) := b in String.eqb a1 b1 && String.eqb a2 b2 && String.eqb a3 b3 && String.eqb a4 b4.
+Definition unnamed_arith_sites : list (string * string * string * string) :=
+  filter (fun s => negb (existsb (fun k => quad_eqb s (fst k)) known_arith_sites)) gen_arith_sites.
+Definition unchecked_pairs : list (string * string * string) :=
+  filter (fun s => negb (existsb (triple_eqb s) length_checked_pairs)) gen_paired_indexes.
+Lemma handler_sinks_named : unnamed_arith_sites = [] /\ unchecked_pairs = [].
+Proof. split; vm_compute; reflexivity. Qed.
+
+(* the model validators do contain the two length checks the pairs rely on *)
+Lemma paired_lengths_checked :
+  (forall m, v_MsgBridgeCallClaim m = VOk -> List.length (bc_tokens m) = List.length (bc_amounts m)) /\
+  (forall mn v nt na rz, v_crosschain_args (CA_BridgeCall mn v nt na rz) = VOk -> nt = na).
+Proof.
+  split.
+  - intros [ch b s r toks ams t d v me o en bh]; unfold v_MsgBridgeCallClaim; cbn.
+    destruct (chain_known ch); cbn; [|discriminate].
+    destruct (Nat.eqb (List.length toks) (List.length ams)) eqn:E; cbn; [|discriminate].
+    intros _. apply PeanoNat.Nat.eqb_eq. exact E.
+  - intros mn v nt na rz; unfold v_crosschain_args.
+    destruct mn; cbn; [|discriminate]. destruct v; cbn; try discriminate.
+    destruct (ZArith.BinInt.Z.eqb nt na) eqn:E; cbn; [|discriminate]. intros _. apply ZArith.BinInt.Z.eqb_eq. exact E.
+Qed.
